@@ -216,12 +216,15 @@ def run_history(mod, descs, ops, res):
         try:
             if kind in ("act_name", "act_ref"):
                 fi = op[1]
-                text = (descs[fi]["by_name"] if kind == "act_name" else refs0[fi]) + " > v"
+                # the enclosing function has two variables to probe (different capture sets mean
+                # different variants compiled while it, and the function nested in it, are instrumented)
+                focus = "x" if descs[fi]["kind"] == "enclosing-function" and step % 2 else "v"
+                text = (descs[fi]["by_name"] if kind == "act_name" else refs0[fi]) + " > " + focus
                 out = []
                 prb = probing(text, env=ns)
                 prb.subscribe(out.append)
                 prb.activate()
-                active.append({"fi": fi, "how": kind, "obj": prb, "out": out, "expected": []})
+                active.append({"fi": fi, "how": kind, "obj": prb, "out": out, "expected": [], "focus": focus})
                 touched.add(fi)
             elif kind == "deact":
                 if not active:
@@ -236,7 +239,7 @@ def run_history(mod, descs, ops, res):
                     problems.append({"after": where, "problem": f"{descs[fi]['call'].format(x=x)} returned {r}"})
                 for a in active:
                     if a["fi"] == fi:
-                        a["expected"].append({"v": x + descs[fi]["k"]})
+                        a["expected"].append({"v": x + descs[fi]["k"]} if a.get("focus", "v") == "v" else {"x": x})
             elif kind == "resolve":
                 touched.add(op[1])
                 if not resolve(op[1], where):
